@@ -106,6 +106,11 @@ def corpus():
             # a delete-orphan child of a joined-table subclass, loaded through the base class
             dict(kind='O', cfg=dict(shape='orphan', strategy='validity', joined=True),
                  prog=[['addp', 1], ['addc', 1, 1], ['commit'], ['orphan', 1], ['commit'], ['commit']]),
+            # a versioned object whose row was removed behind the session's back stays in the session (expired); later
+            # transactions that touch only other data must go through as they do without versioning
+            dict(kind='H', cfg=cfg, twin_only=True,
+                 prog=[['add', 0, 1, {'a': 1}], ['add', 0, 2, {'a': 1}], ['commit'], ['bulkdel', 0, 1], ['commit'],
+                       ['add', 3, 1, {'a': 0}], ['commit'], ['set', 3, 1, {'a': 1}], ['commit']]),
             # a Core statement on the association table that names only one of its columns, after a versioned flush
             dict(kind='H', cfg=cfg, twin_only=True,
                  prog=[['add', 0, 1, {'a': 1}], ['add', 2, 1, {'a': 1}], ['link', 1, 1], ['commit'], ['set', 0, 1, {'a': 2}], ['flush'],
@@ -264,8 +269,12 @@ def build_orphan(cfg):
             __tablename__='child', id=sa.Column(sa.Integer, primary_key=True, autoincrement=False),
             a=sa.Column(sa.Integer), body=sa.orm.deferred(sa.Column(sa.Integer)),
             parent_id=sa.Column(sa.Integer, sa.ForeignKey('parent.id')),
-            parent=sa.orm.relationship(Parent, backref=sa.orm.backref('children', cascade='all, delete-orphan')),
             **dict(poly, **({'__versioned__': dict(opts)} if opts is not None else {}))))
+        if cfg.get('oneway'):
+            # the relationship exists on the parent only: removing a child from the collection touches nothing on the child
+            Parent.children = sa.orm.relationship(Child, cascade='all, delete-orphan')
+        else:
+            Child.parent = sa.orm.relationship(Parent, backref=sa.orm.backref('children', cascade='all, delete-orphan'))
         env.sub = None
         if cfg.get('joined'):
             # joined: the children are objects of a joined-table subclass; loaded through the base class (the parent's
@@ -339,10 +348,11 @@ def _run_orphan(env, prog):
                     p_.children.append(pending[(Child, op[1])])
                 elif k == 'orphan':
                     c_ = s.get(Child, op[1])                       # body stays unloaded (deferred)
-                    if c_ is None or c_.parent is None:
+                    p_ = None if c_ is None or c_.parent_id is None else s.get(Parent, c_.parent_id)
+                    if c_ is None or p_ is None or c_ not in p_.children:
                         outcomes.append('skip')
                         continue
-                    c_.parent.children.remove(c_)
+                    p_.children.remove(c_)
                 elif k in ('setp', 'setc'):
                     o = s.get(Parent if k == 'setp' else Child, op[1])
                     if o is None:
